@@ -391,6 +391,39 @@ def ipg_ops(ctx, rng, add):
         add(f'C04 ipg {n} {gl(q0)} {gl(q1)} 1,0 10', lambda q0=q0, q1=q1: '|'.join('-' if x is None else gl(x) for x in inner_product_grad(q0, q1)))
 
 
+def circuit_classes(circ):
+    """the program classes the sweep theorems distinguish: plain / placeholder / shared parameter object / custom gate"""
+    from numqi.sim._internal import _ParameterHolder
+    gs = [g for g, _ in circ.gate_index_list]
+    cl = set()
+    if any(hasattr(g, 'args') and isinstance(g.args, _ParameterHolder) for g in gs):
+        cl.add('placeholder')
+    tr = [id(g) for g in gs if getattr(g, 'requires_grad', False)]
+    if len(tr) != len(set(tr)):
+        cl.add('shared')
+    if any(getattr(g, 'kind', None) == 'custom' for g in gs):
+        cl.add('custom')
+    return sorted(cl) or ['plain']
+
+
+SWEEP_CLASSES = ('plain', 'placeholder', 'shared', 'custom')
+
+
+def coverage_check(ctx):
+    """a tie that was skipped because a private hook is unavailable must be covered by the public-path probes: for every program class either
+    the exact sweep tie or the finite-difference / autograd probe has to have run; the counts go into the evidence"""
+    cov = {c: dict(sweep_tied=ctx.hist.get('sweep-tied-' + c, 0), sweep_untied=ctx.hist.get('sweep-untied-' + c, 0),
+                   probed=ctx.hist.get('probe-circuit-' + c, 0)) for c in SWEEP_CLASSES}
+    cov['stack'] = dict(tied=ctx.hist.get('stack', 0), untied=ctx.hist.get('stack-capture-unavailable', 0))
+    ctx.extra['sweep_coverage'] = cov
+    for c in SWEEP_CLASSES:
+        if cov[c]['sweep_tied'] == 0 and cov[c]['probed'] == 0:
+            ctx.fail('coverage-gap:sweep-' + c, f'program class `{c}`: neither the exact sweep tie ({cov[c]["sweep_untied"]} skipped: call not capturable) nor the '
+                     f'finite-difference / autograd probe ran on it — the reverse sweep is unchecked for this class', dict(op='coverage', coverage=cov))
+    if sum(cov[c]['sweep_tied'] for c in SWEEP_CLASSES) == 0:
+        ctx.note(f'NO exact sweep tie ran ({sum(cov[c]["sweep_untied"] for c in SWEEP_CLASSES)} skipped); the reverse sweep is covered by the probes only: {cov}')
+
+
 def capture_function_call(wrapper, q0):
     """one real `wrapper(q0)` with the `apply` of the autograd Function it uses intercepted: returns (apply, args) — the callable the
     wrapper invoked and the argument tuple exactly as `CircuitTorchWrapper.forward` passed it — or None if no such call is observed.
@@ -494,6 +527,8 @@ def sweep_ops(ctx, rng, add):
             ctx.note('sweep tie skipped: the autograd Function call of CircuitTorchWrapper.forward could not be captured in the expected form '
                      '(tensors of the sorted names, then the state); the public-path probes decide')
             ctx.count('sweep-capture-unavailable')
+            for c in circuit_classes(circ):
+                ctx.count('sweep-untied-' + c)
             continue
         apply_fn, cargs = cap
         shapes = [tuple(cargs[j].shape) for j in tpos[:-1]]
@@ -553,6 +588,8 @@ def sweep_ops(ctx, rng, add):
         nshared = sum(rows.values()) < sum(1 for x in prog if x.endswith(':-'))
         ctx.count('sweep-' + ('unitary' if unitary else 'general') + ('-shared' if nshared else '') + ('-placeholder' if nph else '')
                   + ('-custom' if any(x.startswith('x:') for x in prog) else ''))
+        for c in circuit_classes(circ):
+            ctx.count('sweep-tied-' + c)
 
 
 def kl_ops(ctx, rng, add):
@@ -1350,6 +1387,8 @@ def probe_custom(ctx, rng, worst):
                      dict(info, parameters=labels, theta=x0.tolist(), grad=gc.tolist(), autograd=ga.tolist(), finite_difference=fd.tolist()))
         else:
             ctx.probe_ok(('custom-circuit', seed)); ctx.count('circuit-grad-vs-fd:custom')
+            for c in circuit_classes(circ):
+                ctx.count('probe-circuit-' + c)
     cases = [(2, 1, 1, True), (2, 1, 2, True), (2, 2, 1, False)] if ctx.quick() else [(2, 1, 1, True), (2, 1, 2, True), (2, 2, 2, True), (3, 1, 1, True), (3, 1, 2, True), (2, 2, 1, False), (3, 1, 1, False)]
     for num_qubit, num_layer, num_query, frac in cases:
         seed = int(rng.integers(1 << 30))
@@ -1375,6 +1414,43 @@ def probe_custom(ctx, rng, worst):
                      dict(info, parameters=labels, theta=theta.tolist(), grad=np.asarray(g0).tolist(), finite_difference=fd.tolist()))
         else:
             ctx.probe_ok(('query-model', num_qubit, num_layer, num_query, frac)); ctx.count('query-model-grad-vs-fd')
+
+
+def probe_class_representatives(ctx, worst):
+    """one fixed circuit per program class (plain / placeholder / shared / custom) through the public path: gradient of CircuitTorchWrapper
+    against the autograd re-implementation and finite differences — so that every class is covered even when an exact tie is unavailable"""
+    import numqi
+    def build(cls):
+        circ = numqi.sim.Circuit(default_requires_grad=True)
+        circ.ry(1, 0.3); circ.rx(0, 0.7); circ.cnot(0, 1); circ.rz(1, 1.1)
+        nph = 0
+        if cls == 'placeholder':
+            circ.rx(0, circ.P['a'][0]); circ.rz(1, circ.P['a'][1]); nph = 2
+        elif cls == 'shared':
+            g = circ.u3(0, (0.2, 0.5, 0.9)); circ.cnot(1, 0); circ.append_gate(g, (1,))
+        elif cls == 'custom':
+            circ.register_custom_gate('fgo', numqi.query.FractionalGroverOracle); circ.register_custom_gate('go', numqi.query.GroverOracle)
+            g = circ.fgo(1, 0.4); circ.ry(0, 0.6); circ.go(1); circ.append_gate(g, ())
+        circ.ry(0, 1.3)
+        return circ, nph
+    for cls in SWEEP_CLASSES:
+        info = dict(op='CircuitTorchWrapper (class representative)', program_class=cls)
+        try:
+            circ, nph = build(cls)
+            x0, gc, ga, fd, labels = circuit_grad_triple(circ, nph, np.random.default_rng(ctx.np_seed + 41))
+            e_fd, e_ag = rel_err(gc, fd), rel_err(gc, ga)
+        except Exception as e:
+            ctx.fail('circuit-grad-raises', f'{type(e).__name__}: {e}', info); continue
+        if e_ag > 1e-9 or e_fd > 1e-5:
+            j = int(np.argmax(np.abs(gc - ga)))
+            ctx.fail(CUSTOM_KEY if cls == 'custom' else 'circuit-grad-vs-autograd', f'{cls} circuit: parameter {labels[j]} receives .grad {gc[j]:.6g}, autograd {ga[j]:.6g}, finite differences {fd[j]:.6g}',
+                     dict(info, gates=[(g.name, str(ix)) for g, ix in circ.gate_index_list], parameters=labels, theta=x0.tolist(), grad=gc.tolist(), autograd=ga.tolist(), finite_difference=fd.tolist()))
+        else:
+            ctx.probe_ok(('class-representative', cls))
+            for c in circuit_classes(circ):
+                ctx.count('probe-circuit-' + c)
+            if cls == 'plain':
+                ctx.count('probe-circuit-plain', 0)
 
 
 def probe_relative_entropy(ctx, rng, worst):
@@ -1616,6 +1692,8 @@ def probe(ctx):
                      dict(info, theta=x0.tolist(), grad=grads['custom'].tolist(), finite_difference=fd.tolist()))
         else:
             ctx.probe_ok(('circuit', seed))
+            for c in circuit_classes(circ):
+                ctx.count('probe-circuit-' + c)
     # (1b) several circuit branches in one graph, outputs consumed twice, every kind of last gate; aliasing of grad_output
     probe_graphs(ctx, rng, worst)
     probe_inputs(ctx, rng, worst)
@@ -1801,6 +1879,8 @@ def probe(ctx):
     except Exception as ex:
         ctx.note(f'non-unitary gate experiment raised {type(ex).__name__}')
     ctx.extra['probe_worst_rel_err'] = {k: float(v) for k, v in worst.items()}
+    probe_class_representatives(ctx, worst)
+    coverage_check(ctx)
     ctx.assumptions.append('probe: central finite differences h=1e-5, relative tolerance 1e-5 (truncation error h^2*|f\'\'\'|/6 ~ 1e-10, rounding 1e-16/h ~ 1e-11 for O(1) losses); '
                            'pure-autograd re-implementation tolerance 1e-9; rank-deficient PSD inputs are outside "differentiable input" and only recorded')
 
